@@ -2496,6 +2496,10 @@ impl DnsIncoming {
         let mut name = "".to_string();
         let mut at_end = false;
 
+        // Every compression pointer must point before the previous one (the first one:
+        // before this name), so that following pointers always terminates.
+        let mut max_pointer = start_offset;
+
         // From RFC1035:
         // "...Domain names in messages are expressed in terms of a sequence of labels.
         // Each label is represented as a one octet length field followed by that
@@ -2547,6 +2551,13 @@ impl DnsIncoming {
                         .map_err(|e| Error::Msg(format!("read_name: from_utf8: {e}")))?;
                     name += ".";
                     offset += length as usize;
+
+                    // RFC 1035 section 2.3.4: a domain name is limited to 255 octets.
+                    if name.len() > 255 {
+                        return Err(Error::Msg(format!(
+                            "read_name: name is longer than 255 bytes at offset {offset}"
+                        )));
+                    }
                 }
                 0xC0 => {
                     // Message compression.
@@ -2559,13 +2570,14 @@ impl DnsIncoming {
                         )));
                     }
                     let pointer = (u16_from_be_slice(slice) ^ 0xC000) as usize;
-                    if pointer >= start_offset {
+                    if pointer >= max_pointer {
                         // Error: could trigger an infinite loop.
                         return Err(Error::Msg(format!(
                             "Invalid name compression: pointer {} must be less than the start offset {}",
-                            &pointer, &start_offset
+                            &pointer, &max_pointer
                         )));
                     }
+                    max_pointer = pointer;
 
                     // A pointer marks the end of a domain name.
                     if !at_end {
